@@ -66,6 +66,41 @@ pub fn one_item_per_line(text: &str) -> String {
 }
 
 /// vharness c01 --sets <ndjson> --cfgs <ndjson> --patterns <ndjson> --per-set <n> --crate <dir> --plan <json>
+/// ENUMERATED types over every root of 1..3 items numbered from {none, -1, 0, 1, 2, 5} (explicit numbers distinct, in every
+/// order), without marker, with a marker, and with one or two identifier-only additions: whatever numbers the compiler assigns,
+/// the discriminants of one enum have to be distinct for rustc (E0081)
+fn enum_module() -> String {
+    const NUMS: [Option<i64>; 6] = [None, Some(-1), Some(0), Some(1), Some(2), Some(5)];
+    let mut roots: Vec<Vec<Option<i64>>> = vec![];
+    for a in NUMS {
+        roots.push(vec![a]);
+        for b in NUMS {
+            roots.push(vec![a, b]);
+            for c in NUMS {
+                roots.push(vec![a, b, c]);
+            }
+        }
+    }
+    roots.retain(|r| {
+        let ex: Vec<i64> = r.iter().flatten().copied().collect();
+        (0..ex.len()).all(|i| (0..i).all(|j| ex[i] != ex[j]))
+    });
+    let mut lines = vec![];
+    for (k, r) in roots.iter().enumerate() {
+        for ext in 0..4 {
+            let mut parts: Vec<String> = r.iter().enumerate().map(|(i, n)| match n { Some(n) => format!("e{i}({n})"), None => format!("e{i}") }).collect();
+            if ext > 0 {
+                parts.push("...".into());
+            }
+            for j in 1..ext {
+                parts.push(format!("x{j}"));
+            }
+            lines.push(format!("En{k}x{ext} ::= ENUMERATED {{ {} }}", parts.join(", ")));
+        }
+    }
+    format!("Enums DEFINITIONS AUTOMATIC TAGS ::= BEGIN\n{}\nEND\n", lines.join("\n"))
+}
+
 pub fn drive(args: &[String]) -> i32 {
     let sets = util::read_ndjson(util::arg(args, "--sets").expect("--sets"));
     let cfgs: Vec<Value> = util::read_ndjson(util::arg(args, "--cfgs").expect("--cfgs")).into_iter()
@@ -83,6 +118,11 @@ pub fn drive(args: &[String]) -> i32 {
                 jobs.push((src.clone(), j, what));
             }
         }
+    }
+    // the enumeration module once, under the default configuration
+    if let Some(j) = cfgs.iter().position(|c| c["cfg"]["imports"] == 0 && c["cfg"]["ann"] == "default" && c["cfg"]["opaque"] == true && c["cfg"]["wild"] == false
+                                              && c["cfg"]["from"] == false && c["cfg"]["nostd"] == false) {
+        jobs.push((vec![enum_module()], j, "enums"));
     }
     // real-world modules of the repository that stand alone (no IMPORTS) -- beyond the generator grammar
     if let Some(dir) = util::arg(args, "--corpus") {
